@@ -368,7 +368,7 @@ impl Property for C07 {
     type Case = Case;
     const ID: &'static str = "C07";
     fn cases(tier: Tier) -> u64 {
-        tier.pick(12_000, 400_000)
+        tier.pick(30_000, 500_000)
     }
     fn strategy(tier: Tier) -> BoxedStrategy<Case> {
         let max_ops = tier.pick(120usize, 200usize);
